@@ -157,7 +157,7 @@ def canon_desc(d):
         return f"Q:{d[2] if len(d) > 2 else 'integer'}:{d[1]}/1"
     if k == "D":
         f = Fraction(d[1], 10 ** d[2])
-        return f"Q:decimal:{f.numerator}/{f.denominator}"
+        return f"Q:decimal:{f.numerator}/{f.denominator}~{d[2]}"  # the TERM: value and fraction digits
     if k == "F":
         f = Fraction(d[1], 10 ** d[2])
         return f"Q:{d[3] if len(d) > 3 else 'double'}:{f.numerator}/{f.denominator}"
@@ -193,7 +193,11 @@ def canon_term(t):
         if dt in _numeric_dts() and t.value is not None and not isinstance(t.value, bool):
             try:
                 f = Fraction(t.value).limit_denominator(10 ** 6)
-                return f"Q:{dt[len(XS):]}:{f.numerator}/{f.denominator}"
+                sc = ""
+                if dt == XS + "decimal":  # fraction digits of the lexical form; "x" = a quotient cut at 28 digits
+                    nd = len(str(t).partition(".")[2])
+                    sc = "~x" if nd > 20 else f"~{nd}"
+                return f"Q:{dt[len(XS):]}:{f.numerator}/{f.denominator}{sc}"
             except (ValueError, OverflowError, TypeError):
                 return "L:" + t.n3()
         if dt == XS + "boolean" and t.value is not None:
@@ -210,8 +214,8 @@ def canon_tok(tk):
         return "-"
     k, _, rest = tk.partition(".")
     if k == "Q":
-        dt, n, dd = rest.split(".")
-        return f"Q:{dt}:{n}/{dd}"
+        dt, n, dd, sc = rest.split(".")
+        return f"Q:{dt}:{n}/{dd}" + (("~x" if int(sc) > 20 else "~" + sc) if dt == "decimal" else "")
     if k == "B":
         return "B:" + rest
     if k == "S":
@@ -336,7 +340,7 @@ def num_of(c):
     """(dtclass, Fraction) of a numeric cell, else None"""
     if c.startswith("Q:"):
         _, dt, fr = c.split(":")
-        return dt, Fraction(fr)
+        return dt, Fraction(fr.partition("~")[0])
     return None
 
 
@@ -465,6 +469,17 @@ class Ev:
                 return {num_cell("integer", len({tuple(sorted(r.items())) for r in rows}))}
             return {num_cell("integer", len(rows))}
         vals = [next(iter(self.ev(arg, r))) for r in rows]  # arguments contain no aggregates: single-valued
+        if dist and arg[0] != "v" and kind in ("COUNT", "SUM", "AVG"):
+            # DISTINCT over COMPUTED decimals: -1.0 and -1.00 are one value, two terms if the implementation keeps
+            # the operands' fraction digits; SPARQL does not fix the lexical form, so both readings are accepted
+            tagged = [v + "#%s" % _scale_of(arg, r) if isinstance(v, str) and v.startswith("Q:decimal") else v
+                      for v, r in zip(vals, rows)]
+            if len(set(tagged)) != len(set(vals)):
+                plain = self.agg(["agg", kind, False, ["v", "\0"], sep], [{"\0": v} for v in dict.fromkeys(vals) if v != "-"] +
+                                 [{} for v in vals if v == "-"])
+                fine = self.agg(["agg", kind, False, ["v", "\0"], sep],
+                                [{"\0": t.partition("#")[0]} for t in dict.fromkeys(tagged) if t != "-"] + [{} for v in vals if v == "-"])
+                return plain | fine
         errs = sum(1 for v in vals if v == "-")
         good = [v for v in vals if v != "-"]
         if dist:
@@ -519,6 +534,8 @@ class Ev:
 def cell_ok(cell, admissible):
     if cell in admissible:
         return True
+    if "~" in cell and cell.partition("~")[0] in admissible:
+        return True  # a computed decimal: SPARQL fixes its value and datatype, not its lexical form
     for a in admissible:
         if isinstance(a, tuple) and a[0] == "GC" and cell.startswith("S:") and cell.endswith("@"):
             _, sep, pieces = a
@@ -617,6 +634,51 @@ def build_items(case, sols):
     return items
 
 
+def _vars_in(e):
+    if not isinstance(e, list) or not e:
+        return set()
+    if e[0] == "v":
+        return {e[1]}
+    out = set()
+    for x in e[1:]:
+        out |= _vars_in(x)
+    return out
+
+
+def _scale_of(e, sol):
+    """fraction digits Python's Decimal arithmetic would give the value of e (None = not a decimal/integer)"""
+    if e[0] == "v" or e[0] == "c":
+        c = sol.get(e[1], "-") if e[0] == "v" else canon_desc(e[1])
+        n = num_of(c) if isinstance(c, str) else None
+        if not n:
+            return None
+        if "~" in c:
+            return int(c.partition("~")[2])
+        return 0 if base_dt(n[0]) == "integer" else None
+    if e[0] in "+-":
+        x, y = _scale_of(e[1], sol), _scale_of(e[2], sol)
+        return None if x is None or y is None else max(x, y)
+    return None
+
+
+def _ambiguous_computed_key(case, sols):
+    """GROUP BY (arithmetic AS ?k): two solutions whose keys are the same decimal VALUE but would differ as terms
+    (0.5 vs 0.50) — one group or two, SPARQL does not fix the lexical form of a computed value"""
+    ev = Ev(case)
+    for _n, e in group_items(case["q"]):
+        if e is None or e[0] == "v":
+            continue
+        seen = {}
+        for r in sols:
+            sol = {v: canon_desc(c) for v, c in zip(case["vars"], r) if c is not None}
+            val = next(iter(ev.ev(e, sol)))
+            if isinstance(val, str) and val.startswith("Q:decimal"):
+                sc = _scale_of(e, sol)
+                if seen.setdefault(val, sc) != sc:
+                    return True
+    return False
+
+
 def row_matches(row, vars_, item):
     return all(cell_ok(c, item["cells"][v]) for v, c in zip(vars_, row))
 
@@ -658,6 +720,8 @@ def check_result(case, sols, vars_, rows, raw_rows):
     if vars_ != want_vars:
         viol.append(f"project: Result.vars = {vars_}, SELECT names {want_vars}")
         return viol
+    if _ambiguous_computed_key(case, sols):
+        return viol  # GROUP BY (?b - 1 AS ?k) over 1.5 and 1.50: one group or two, SPARQL does not fix the key's lexical form
     items = build_items(case, sols)
     descs = [d for _e, d in q["order"]]
     ordered = bool(q["order"])
@@ -922,7 +986,7 @@ def select_model_obs(case, out):
 # ------------------------------------------------------------------ generator
 
 INTS = [0, 1, 2, 3, -2, 10, 1, 2]
-DECS = [(5, 1), (15, 1), (20, 1), (-125, 2), (25, 1), (10, 1), (333, 2)]
+DECS = [(5, 1), (15, 1), (20, 1), (-125, 2), (25, 1), (10, 1), (333, 2), (100, 2), (150, 2), (200, 2), (50, 2)]
 DBLS = [(15, 1), (25, 2), (20, 1), (-10, 1)]
 STRS = ["", "a", "b", "ab", "B", "10", "a"]
 IRIS = ["a", "b", "A", "r0"]
@@ -1107,8 +1171,6 @@ def gen_query(rng, vars_, names, profiles):
             [["+", ["v", rng.choice(names)], ["c", gen_const(rng)]]]
         for _ in range(rng.choice([0, 1, 1, 2, 2, 3])):
             q["order"].append([rng.choice(pool), rng.random() < 0.4])
-    if q["mod"] and any(a[1] == "AVG" for p in q["proj"] if p[0] == "e" for a in _aggs_in(p[1])):
-        q["mod"] = None  # the lexical form (scale) of an AVG quotient is not modelled: keep it away from row identity
     if rng.random() < 0.35:
         q["limit"] = rng.choice([0, 1, 2, 3, 5])
     if rng.random() < 0.3:
